@@ -19,16 +19,16 @@ import (
 	"time"
 )
 
-func stringsReader(s string) io.Reader        { return strings.NewReader(s) }
-func lastIndexByte(s string, c byte) int      { return strings.LastIndexByte(s, c) }
-func hasPrefix(s, p string) bool              { return strings.HasPrefix(s, p) }
+func stringsReader(s string) io.Reader   { return strings.NewReader(s) }
+func lastIndexByte(s string, c byte) int { return strings.LastIndexByte(s, c) }
+func hasPrefix(s, p string) bool         { return strings.HasPrefix(s, p) }
 
 // Config describes one property check.
 type Config struct {
-	Property string
-	Level    string // evidence level: exploration | fault_enumeration | model_checking
-	Spaces   []*Space
-	Rule     string
+	Property    string
+	Level       string // evidence level: exploration | fault_enumeration | model_checking
+	Spaces      []*Space
+	Rule        string
 	Assumptions []string
 	// BudgetS is the wall-clock budget in seconds per tier; when it expires the run stops handing
 	// out work, reports what was completed and sets exhaustive:false (never a violation).
@@ -59,16 +59,16 @@ func (c *Config) space(name string) *Space {
 // Aggregate is the merged result of a run.
 type Aggregate struct {
 	Execs, Skipped, Points, Trivial, Pruned int64
-	MaxDepth, MaxDev               int
-	Keys                           map[uint64]struct{}
-	Outcomes                       map[string]int64
-	Stats                          map[string]int64
-	Sets                           map[string]map[string]struct{}
-	Viol                           []foundViolation
-	Samples                        []sample
-	Incomplete                     []string
-	PerSpace                       map[string]*SpaceAgg
-	Crashes                        []crash
+	MaxDepth, MaxDev                        int
+	Keys                                    map[uint64]struct{}
+	Outcomes                                map[string]int64
+	Stats                                   map[string]int64
+	Sets                                    map[string]map[string]struct{}
+	Viol                                    []foundViolation
+	Samples                                 []sample
+	Incomplete                              []string
+	PerSpace                                map[string]*SpaceAgg
+	Crashes                                 []crash
 }
 
 type SpaceAgg struct {
@@ -654,14 +654,14 @@ func Main(cfg *Config) {
 		cfg.Assumptions = []string{}
 	}
 	ev := map[string]any{
-		"property_id": cfg.Property,
-		"tier":        tier,
-		"seed":        seed,
-		"level":       cfg.Level,
-		"coverage":    cov,
-		"assumptions": cfg.Assumptions,
-		"wall_s":      time.Since(start).Seconds(),
-		"violations":  newViolations,
+		"property_id":         cfg.Property,
+		"tier":                tier,
+		"seed":                seed,
+		"level":               cfg.Level,
+		"coverage":            cov,
+		"assumptions":         cfg.Assumptions,
+		"wall_s":              time.Since(start).Seconds(),
+		"violations":          newViolations,
 		"known_findings_seen": knownSeen,
 	}
 	if len(harnessErrs) > 0 {
